@@ -113,7 +113,11 @@ static Result run_read (const Case &c, Result r)
 	// virtual I/O
 	{	MemFile m ; m.data = bytes ; SF_INFO i = mkinfo () ; SNDFILE *f = open_mem (m, SFM_READ, &i) ; observe (f, i, obs ["vio"], vox) ; }
 	// path
-	std::string path = base + ".dat" ; write_file (path, bytes) ;
+	std::string path = base + ".dat" ;
+	// SVX stores a file name in its NAME chunk and the reader treats "name on disk as long as the chunk" specially: give the file such a name
+	if ((s.format & SF_FORMAT_TYPEMASK) == SF_FORMAT_SVX && (c.geti ("seed") & 1))
+		for (auto &ck : walk_iff (bytes)) if (ck.id == "NAME" && ck.size >= 1 && ck.size <= 100) { path = scratch_dir () + "/" + std::string ((size_t) ck.size, 'n') ; r.classes.push_back ("svx_name_length_matches_chunk") ; break ; }
+	write_file (path, bytes) ;
 	{	SF_INFO i = mkinfo () ; SNDFILE *f = sf_open (path.c_str (), SFM_READ, &i) ; observe (f, i, obs ["path"], vox) ; }
 	// descriptor, close_desc 0 / 1
 	for (int cd1 = 0 ; cd1 < 2 ; cd1++)
